@@ -58,9 +58,8 @@ func (t *TTYFrontend) Attach(r Region) {
 
 		t.region = r
 		t.attached = true
-		if !t.showCur {
-			t.showCur = true
-		}
+		// showCur keeps following the application (?25h / ?25l), also while
+		// detached: a cursor the application has hidden stays hidden.
 
 		if t.term == nil {
 			return
